@@ -3,6 +3,7 @@ package sim
 import (
 	"fmt"
 	"sort"
+	"strconv"
 	"time"
 
 	"pgregory.net/rapid"
@@ -30,24 +31,27 @@ type Profile struct {
 	PDRA                           int // worlds with DRA device classes, slices and pod resource claims (0 = never)
 	PLimits                        int // queues carry limits
 	Actions                        [][]string
-	Deep                           bool // 3-level queue trees more likely
-	NoNodeProblems                 bool // all nodes ready / schedulable / untainted
-	Closed                         bool // closed-system environment (C15)
-	IdenticalPods                  bool // all pods of a workload identical (always true today)
-	GPUNodesOnly                   bool // every node has GPUs
-	NoBindFailures                 bool // the binder model never fails a request
-	Fill                           bool // small nodes and many running workloads: clusters are (nearly) full
-	PPool                          int  // the scheduler is restricted to a node pool; nodes/pods carry pool labels
-	Saturated                      bool // idle GPUs are filled with running filler workloads (see Saturate)
-	Contention                     bool // GPUs are the bottleneck: GPU nodes, GPU workloads, meaningful GPU quotas
-	AntiFamily                     bool // anti-affinity families: 'holders' (required pod anti-affinity against a role, small requests) and 'targets' (pods that only carry the role label) compete in full clusters
-	TopoFamily                     bool // topology families: most workloads carry a required level, start partly running inside ONE domain, sometimes with a terminating pod left in another domain
+	Deep                           bool     // 3-level queue trees more likely
+	NoNodeProblems                 bool     // all nodes ready / schedulable / untainted
+	Closed                         bool     // closed-system environment (C15)
+	IdenticalPods                  bool     // all pods of a workload identical (always true today)
+	GPUNodesOnly                   bool     // every node has GPUs
+	NoBindFailures                 bool     // the binder model never fails a request
+	Fill                           bool     // small nodes and many running workloads: clusters are (nearly) full
+	PPool                          int      // the scheduler is restricted to a node pool; nodes/pods carry pool labels
+	Saturated                      bool     // idle GPUs are filled with running filler workloads (see Saturate)
+	Contention                     bool     // GPUs are the bottleneck: GPU nodes, GPU workloads, meaningful GPU quotas
+	PPersistent                    int      // a world's cycles are served by ONE scheduler process (process.go) instead of a restart per cycle
+	PMutations                     int      // per gap between two cycles: users / administrators change API objects
+	MutationKinds                  []string // kinds of mutations drawn (nil = all)
+	AntiFamily                     bool     // anti-affinity families: 'holders' (required pod anti-affinity against a role, small requests) and 'targets' (pods that only carry the role label) compete in full clusters
+	TopoFamily                     bool     // topology families: most workloads carry a required level, start partly running inside ONE domain, sometimes with a terminating pod left in another domain
 }
 
 func DefaultProfile() Profile {
 	return Profile{MaxNodes: 5, MaxQueues: 5, MaxGroups: 7, MinCycles: 1, MaxCycles: 4,
 		PSharing: 3, PWholeGPU: 5, PGang: 4, PElastic: 3, PSubGroups: 2, PRunning: 5, PTerminating: 2, PBinding: 1,
-		PConstraints: 2, PTopology: 1, PSmallPodSlots: 2, PMIG: 1, PFaults: 2, PNonPreemptible: 3, PMinRuntime: 2, PLimits: 4,
+		PConstraints: 2, PTopology: 1, PSmallPodSlots: 2, PMIG: 1, PFaults: 2, PNonPreemptible: 3, PMinRuntime: 2, PLimits: 4, PPersistent: 4,
 		Actions: [][]string{nil, nil, {"allocate"}, {"allocate", "reclaim"}, {"allocate", "preempt"}, {"allocate", "consolidation"}, {"allocate", "reclaim", "preempt"}},
 	}
 }
@@ -178,7 +182,115 @@ func GenWorld(t *rapid.T, pf Profile) *World {
 		}
 		w.Cycles = append(w.Cycles, sc)
 	}
+	if len(w.Cycles) > 1 && chance(t, pf.PPersistent, "persistentScheduler") {
+		w.PersistentScheduler = true
+	}
+	if pf.PMutations > 0 && len(w.Cycles) > 1 {
+		genMutations(t, pf, w)
+	}
 	return w
+}
+
+// genMutations draws API changes between cycles: priority classes that appear or change their value, workloads that
+// are given another priority class, queue GPU quotas / limits / weights, node labels and cordoning.
+func genMutations(t *rapid.T, pf Profile, w *World) {
+	kinds := pf.MutationKinds
+	if len(kinds) == 0 {
+		kinds = []string{"pc-set", "pg-priorityclass", "queue-gpu", "node-label", "node-unschedulable"}
+	}
+	allowed := map[string]bool{}
+	for _, k := range kinds {
+		allowed[k] = true
+	}
+	classNames := []string{"train", "build-preemptible", "build", "inference"}
+	for _, pc := range w.PriorityClasses {
+		known := false
+		for _, c := range classNames {
+			known = known || c == pc.Name
+		}
+		if !known {
+			classNames = append(classNames, pc.Name)
+		}
+	}
+	// a class that workloads name but that does not exist yet: it is created later
+	if allowed["pc-set"] && len(w.Groups) > 0 && chance(t, 3, "classAppearsLater") {
+		g := &w.Groups[uniform(t, len(w.Groups), "lateClassGroup")]
+		if g.PriorityClass != "" {
+			if w.PriorityClasses == nil {
+				w.PriorityClasses = DefaultPriorityClasses()
+			}
+			var keep []PriorityClass
+			val := 0
+			for _, pc := range w.PriorityClasses {
+				if pc.Name == g.PriorityClass {
+					val = pc.Value
+					continue
+				}
+				keep = append(keep, pc)
+			}
+			if len(keep) < len(w.PriorityClasses) {
+				w.PriorityClasses = keep
+				gap := uniform(t, len(w.Cycles)-1, "lateClassGap")
+				w.Cycles[gap].Mutations = append(w.Cycles[gap].Mutations, Mutation{Kind: "pc-set", Target: g.PriorityClass, Value: strconv.Itoa(val)})
+			}
+		}
+	}
+	for gap := 0; gap < len(w.Cycles)-1; gap++ {
+		if !chance(t, pf.PMutations, "gapHasMutations") {
+			continue
+		}
+		for k := between(t, 1, 2, "nMutations"); k > 0; k-- {
+			kind := kinds[uniform(t, len(kinds), "mutationKind")]
+			var m Mutation
+			switch kind {
+			case "pc-set":
+				m = Mutation{Kind: kind, Target: classNames[uniform(t, len(classNames), "mutClass")],
+					Value: strconv.Itoa(pickInt(t, "mutClassValue", 10, 40, 60, 90, 110, 130, 1000000, -7))}
+			case "pg-priorityclass":
+				if len(w.Groups) == 0 {
+					continue
+				}
+				m = Mutation{Kind: kind, Target: w.Groups[uniform(t, len(w.Groups), "mutGroup")].Name, Value: classNames[uniform(t, len(classNames), "mutGroupClass")]}
+			case "queue-gpu":
+				q := w.Queues[uniform(t, len(w.Queues), "mutQueue")]
+				m = Mutation{Kind: kind, Target: q.Name, Field: pickS(t, "mutQField", "quota", "limit", "weight")}
+				switch m.Field {
+				case "quota":
+					m.Value = pickS(t, "mutQuota", "0", "0.5", "1", "2", "4", "8", "-1")
+				case "limit":
+					m.Value = pickS(t, "mutLimit", "-1", "0", "1", "2", "4", "-1")
+				default:
+					m.Value = pickS(t, "mutWeight", "0", "1", "2", "3")
+				}
+			case "node-label":
+				n := w.Nodes[uniform(t, len(w.Nodes), "mutNode")]
+				m = Mutation{Kind: kind, Target: n.Name, Field: pickS(t, "mutLabel", ZoneLabel, RackLabel, DiskLabel)}
+				switch m.Field {
+				case ZoneLabel:
+					m.Value = pickS(t, "mutZone", append([]string{""}, zones...)...)
+				case RackLabel:
+					m.Value = pickS(t, "mutRack", append([]string{""}, racks...)...)
+				default:
+					m.Value = pickS(t, "mutDisk", "", "ssd", "hdd")
+				}
+			case "node-unschedulable":
+				n := w.Nodes[uniform(t, len(w.Nodes), "mutNode2")]
+				// flips relative to the state reached so far
+				cur := n.Unschedulable
+				for g2 := 0; g2 <= gap; g2++ {
+					for _, pm := range w.Cycles[g2].Mutations {
+						if pm.Kind == kind && pm.Target == n.Name {
+							cur = pm.Value == "true"
+						}
+					}
+				}
+				m = Mutation{Kind: kind, Target: n.Name, Value: strconv.FormatBool(!cur)}
+			}
+			if m.Kind != "" {
+				w.Cycles[gap].Mutations = append(w.Cycles[gap].Mutations, m)
+			}
+		}
+	}
 }
 
 func genConfig(t *rapid.T, pf Profile, w *World) {
